@@ -579,6 +579,7 @@ def c14_judge(group, tag):
         for key, dflt in (("unpaired", 0), ("n_ok", 0), ("n_failed", 0), ("n_ignored", 0),
                           ("suite_started", 0), ("suite_result", 0), ("dup_started", 0)):
             lt.setdefault(key, dflt)
+        lt["feature_clash"] = report_parsers.feature_clash(rec["universe"], lt.pop("prefix_of", {}))
         if not lt.get("suite"):
             lt["suite"] = {"event": "", "passed": -1, "failed": -1, "ignored": -1}
         panics = {n: rec["panics"].get(n, "") for n in report_parsers.PARSERS}
@@ -593,6 +594,26 @@ def c14_judge(group, tag):
     if len(vs) != len(out):
         raise ToolError(f"Trace_Reporters judged {len(vs)} of {len(out)} streams")
     return {v["id"]: v for v in vs}, recs_all
+
+
+def _delay_parsing_finished(stream, sd):
+    """Moves ParsingFinished to a later position before run-Finished (in place).  The result is a
+    behaviour of SeqGen with LazyParse: GLate may emit ParsingFinished at any point while a feature
+    or an attempt is under way, parser errors stay before it, run-Finished stays after it."""
+    import random
+    kinds = [e["t"] for e in stream]
+    if "ParsingFinished" not in kinds or "Started" not in kinds or "Finished" not in kinds:
+        return False
+    pf, st, fin = kinds.index("ParsingFinished"), kinds.index("Started"), kinds.index("Finished")
+    lo = max(pf, st) + 1
+    if lo >= fin:
+        return False
+    rng = random.Random(sd)
+    # biased to the tail: half of the moved ones land just before run-Finished
+    to = fin - 1 if rng.random() < 0.5 else rng.randint(lo, fin - 1)
+    ev = stream.pop(pf)
+    stream.insert(to, ev)        # after the pop, index `to` is the old position to + 1
+    return True
 
 
 def check_c14(tier):
@@ -613,10 +634,17 @@ def check_c14(tier):
                 timeout=1800, tag=f"genrep{n}")
         require_ok(r, f"Gen_Summarize (reporters) {c[0]}")
         got = tlc_lines(r["out"], "REPLAY")
+        late = 0
         for k, g in enumerate(got):
             g["id"] = f"{c[0]}.{n}.{k}"
             g["opts"] = c[7]
+            # simulation emits ParsingFinished early almost always (it is enabled from the first
+            # step on); SeqGen's GLate allows it at any later point before run-Finished as well, so
+            # every other lazy stream gets it moved to a seeded later position of the same behaviour
+            if c[7].get("lazy") and k % 2 == 1 and _delay_parsing_finished(g["stream"], seed() * 7919 + n * 1009 + k):
+                late += 1
         gens.append({"universe": c[0], "consts": list(c[1:6]), "opts": c[7], "behaviours": len(got),
+                     "parsing_finished_moved_later": late,
                      "wall_s": r["wall_s"]})
         states += r.get("states", 0)
         streams.extend(got)
